@@ -205,7 +205,7 @@ EpNotReady == {Ep("n1", FALSE)}
 (* BGP family: addresses that share aggregates, dual stack, traffic policy  *)
 SpecsBgp(s) ==
   IF s = "s1"
-  THEN { Sv("LB", <<5>>, "Cluster", EpBoth), Sv("LB", <<5, 105>>, "Cluster", EpBoth),
+  THEN { Sv("LB", <<5>>, "Cluster", EpBoth), Sv("LB", <<5, 105>>, "Cluster", EpBoth), Sv("LB", <<105, 5>>, "Cluster", EpBoth),
          Sv("LB", <<9>>, "Cluster", EpBoth), Sv("LB", <<5>>, "Local", EpN2) }
   ELSE { Sv("LB", <<6>>, "Cluster", EpBoth), Sv("LB", <<107>>, "Cluster", EpBoth),
          Sv("LB", <<7>>, "Cluster", EpNotReady), Sv("CIP", <<6>>, "Cluster", EpBoth) }
@@ -242,10 +242,14 @@ InitConvSvcs7 == [s \in SpkSvcs |-> IF s = "s1" THEN Sv("LB", <<7>>, "Cluster", 
 InitConvSvcs2 == [s \in SpkSvcs |-> IF s = "s1" THEN Sv("LB", <<5>>, "Cluster", EpBoth) ELSE Sv("LB", <<6>>, "Cluster", EpBoth)]
 (* small catalogues for the targeted configurations                         *)
 SpecsBgpSmall(s) ==
-  IF s = "s1" THEN { Sv("LB", <<5>>, "Cluster", EpBoth), Sv("LB", <<5, 105>>, "Cluster", EpBoth), Sv("LB", <<9>>, "Cluster", EpBoth) }
+  IF s = "s1" THEN { Sv("LB", <<5>>, "Cluster", EpBoth), Sv("LB", <<5, 105>>, "Cluster", EpBoth), Sv("LB", <<105, 5>>, "Cluster", EpBoth),
+                     Sv("LB", <<9>>, "Cluster", EpBoth) }
   ELSE { Sv("LB", <<6>>, "Cluster", EpBoth) }
 SpecsOne(s) == IF s = "s1" THEN { Sv("LB", <<5>>, "Cluster", EpBoth) } ELSE {}
 SpecsTwoAddr(s) == IF s = "s1" THEN { Sv("LB", <<5>>, "Cluster", EpBoth), Sv("LB", <<7>>, "Cluster", EpBoth) } ELSE {}
+(* two addresses the hash gives to n1, so that layer 2 stays with this node *)
+SpecsTwoWin(s) == IF s = "s1" THEN { Sv("LB", <<5>>, "Cluster", EpBoth), Sv("LB", <<6>>, "Cluster", EpBoth) } ELSE {}
+NodesFlapB(n) == IF n = "n1" THEN {NA, NB} ELSE {NB}
 NodesFlap(n) == IF n = "n1" THEN {NA, NB} ELSE {NA}
 (* --ignore-exclude-lb: the speaker's own node carries the exclude label    *)
 NXA == Nd("a", FALSE, TRUE)
